@@ -2,6 +2,7 @@
 import itertools
 
 from mc.core import Res
+from mc import adapt as A
 from mc import keys as K
 
 NAMED_DISQ = ['WrongSig', 'Expired', 'Disabled', 'Invalid', 'NoSelfSignature']
@@ -214,7 +215,7 @@ class Prop(object):
         uid = pub.userids[0]
         verdict('self/uid', lambda: pub.verify(uid), exp, False, None)
         other = pgpy.PGPUID.new('Mallory <m@example.org>')
-        other._parent = pub
+        A.attach(other, pub)
         verdict('self/uid-wrong', lambda: pub.verify(other, uid.selfsig), True, False, 1)
         r.samples.append(dict(case))
         return r
